@@ -22,6 +22,7 @@ import Thanos.Model.Sharding
 
   C42 op (grammar in harness/cmd/frontend/c42.go):
     cache.hist <align 0|1> <splitMs> <data> <reqs>   -> <resp>|<resp>|…
+    cache.fresh <B> <splitMs> <poison|-> <data> <reqs with :flush>   -> <resp>|<resp>|…
 
   C44 ops (grammar in harness/cmd/frontend/c44.go):
     shard.analyze E                                            -> none | by:<l,l> | without:<l,l>
@@ -182,6 +183,16 @@ def pReq (t : String) : Option Req :=
     then none else pure r
   | _ => none
 
+/-- `<start>:<end>:<step>:<flush>` with steps that are multiples of one minute -/
+def pFreshReq (t : String) : Option (Req × Bool) :=
+  match splitChar ':' t with
+  | [a, b, c, f] => do
+    let r : Req := ⟨← parseInt? a, ← parseInt? b, ← parseInt? c⟩
+    let fl ← pBool f
+    if r.start < 0 ∨ r.stop < r.start ∨ r.step ≤ 0 ∨ r.start.tmod 1000 ≠ 0 ∨ r.stop.tmod 1000 ≠ 0 ∨ r.step.tmod 60000 ≠ 0
+    then none else pure (r, fl)
+  | _ => none
+
 /-- the harness's downstream: present inside one of the intervals, value `((t/1000)·(id+1) + id) mod 997` -/
 def mkDown (data : List (Nat × List (Int × Int))) : Down :=
   { ids := sortLt (fun a b => a < b) (data.map (·.1)),
@@ -191,6 +202,36 @@ def mkDown (data : List (Nat × List (Int × Int))) : Down :=
         if ivs.any (fun iv => iv.1 ≤ t && t ≤ iv.2) then some (((t.tdiv 1000) * ((id : Int) + 1) + id).tmod 997) else none
       | none => none }
 
+/-- one request through the chain, also listing the downstream calls (sorted: the real ones run
+    in parallel) -/
+def traceReq (cfg : Cfg) (env : Env) (D : Down) (align : Bool) (splitMs : Int) (c : Cache) (req : Req) : List Req :=
+  if req.step = 0 then [] else
+  let (s, e) := if align then (req.start.tdiv req.step * req.step, req.stop.tdiv req.step * req.step)
+                else (req.start, req.stop)
+  match Split.split s e req.step splitMs with
+  | .ok parts =>
+    (parts.foldl (fun (acc : List Req × Cache) p =>
+      let r : Req := ⟨p.1, p.2, req.step⟩
+      (acc.1 ++ downReqs cfg env splitMs acc.2 r, (doReq cfg env D splitMs acc.2 r).2)) ([], c)).1
+  | _ => []
+
+def reqLt (a b : Req) : Bool :=
+  a.start < b.start || (a.start == b.start && (a.stop < b.stop || (a.stop == b.stop && a.step < b.step)))
+
+def showCalls (rs : List Req) : String :=
+  joinWith "," ((sortLt reqLt rs).map fun r => s!"{r.start}-{r.stop}-{r.step}")
+
+/-- responses and downstream calls of a history -/
+def traceHistory (cfg : Cfg) (D : Down) (align : Bool) (splitMs : Int) : Cache → List Step → List String
+  | _, [] => []
+  | c, s :: rs =>
+    let c0 := if s.flush then [] else c
+    match frontend cfg s.env D align splitMs c0 s.req with
+    | some (m, c') =>
+      (joinWith ";" (m.map fun st => s!"{st.1}:" ++ joinWith "," (st.2.map fun x => s!"{x.t}={x.v}")) ++ "#" ++
+        showCalls (traceReq cfg s.env D align splitMs c0 s.req)) :: traceHistory cfg D align splitMs c' rs
+    | none => "err" :: traceHistory cfg D align splitMs c0 rs
+
 def showMatrix (m : Matrix) : String :=
   joinWith ";" (m.map fun s => s!"{s.1}:" ++ joinWith "," (s.2.map fun x => s!"{x.t}={x.v}"))
 
@@ -199,10 +240,18 @@ def handleC42 : List String → String
     match pBool al, parseInt? sp, (listOf ';' data).mapM pSeriesData, (listOf ',' reqs).mapM pReq with
     | some align, some splitMs, some data, some reqs =>
       if splitMs ≤ 0 ∨ splitMs.tmod 1000 ≠ 0 ∨ reqs.isEmpty ∨ (data.map (·.1)).eraseDups.length ≠ data.length then "bad-op" else
-      "|".intercalate ((history liveCfg (mkDown data) align splitMs [] reqs).map fun
-        | some m => showMatrix m
-        | none => "err")
+      "|".intercalate (traceHistory liveCfg (mkDown data) align splitMs [] (reqs.map fun r => ⟨Env.far, false, r⟩))
     | _, _, _, _ => "bad-op"
+  | ["cache.fresh", b, sp, poison, data, reqs] =>
+    let pz : Option (Option Int) := if poison = "-" then some none else (parseInt? poison).map some
+    match parseInt? b, parseInt? sp, pz, (listOf ';' data).mapM pSeriesData, (listOf ',' reqs).mapM pFreshReq with
+    | some B, some splitMs, some pz, some data, some reqs =>
+      let badP : Bool := match pz with | some p => decide (p < 0) | none => false
+      if B ≤ 0 ∨ B.tmod 60000 ≠ 0 ∨ splitMs ≤ 0 ∨ splitMs.tmod 1000 ≠ 0 ∨ reqs.isEmpty ∨
+         (data.map (·.1)).eraseDups.length ≠ data.length ∨ badP = true then "bad-op" else
+      let env : Env := ⟨B + 30000, fun r => match pz with | some p => r.start ≤ p && p ≤ r.stop | none => false⟩
+      "|".intercalate (traceHistory liveCfg (mkDown data) true splitMs [] (reqs.map fun (r, fl) => ⟨env, fl, r⟩))
+    | _, _, _, _, _ => "bad-op"
   | _ => "bad-op"
 
 end C42
@@ -322,6 +371,7 @@ def handle3 (op a c d : String) : String :=
 
 def handle : List String → String
   | "cache.hist" :: rest => handleC42 ("cache.hist" :: rest)
+  | "cache.fresh" :: rest => handleC42 ("cache.fresh" :: rest)
   | "shard.analyze" :: rest => handleC44 ("shard.analyze" :: rest)
   | "shard.match" :: rest => handleC44 ("shard.match" :: rest)
   | ["split.range", a, b, c, d] =>
